@@ -124,3 +124,5 @@ package v2
 //@   at call AlertToOpenAPIAlert assert [receivers-of-this-alert-in-a-slice-of-their-own] called("Route).Match") && allocsince("Route).Match", arg2) && len(arg2) == len(ret("Route).Match"))
 //@   loop 2 invariant allocsince("Route).Match", receivers) && len(receivers) == rangeindex + 1 && rangeindex < len(ret("Route).Match"))
 //@   opaque AlertToOpenAPIAlert alertFilter receiversMatchLabels parseFilter receiverLabelsMap requestLogger
+//@   loop 1 invariant api.route != nil
+//@   noeffect alertFilter receiverLabelsMap requestLogger AlertMarker).Status AlertIterator).Close AlertIterator).Err AlertIterator).Next Alerts).GetPending dynamic: AlertToOpenAPIAlert parseFilter receiversMatchLabels
